@@ -140,8 +140,19 @@ def make_harness(case, tier):
             arg = forced if form == 0 else ([world.task(k, f) for f in forced] if form == 1 else
                                             (forced[0] if len(forced) == 1 else [world.task(k, forced[0])] + forced[1:]))
             mark = world.mark()
-            world.chain(k).force(arg, recompute=recompute, delete_data=delete)
+            try:
+                world.chain(k).force(arg, recompute=recompute, delete_data=delete)
+                ferr = None
+            except Exception as e:        # forcing must work whatever the state of the store
+                ferr = f'{type(e).__name__}: {e}'[:200]
+            ctx.check_concrete(ferr is None, 'forced-flags', dict(info, force_raised=ferr))
+            if ferr is not None:
+                return
             marked = ref.force(k, forced, delete_data=delete)
+            if not recompute and n == 2 and rnd == 0 and ctx.flag(f'reset_data{rnd}'):
+                # dropping the in-memory value of a forced task does not un-force it
+                for f_ in forced:
+                    world.task(k, f_).reset_data()
             if recompute:
                 exp = []
                 for m in sorted(marked):
